@@ -1,9 +1,10 @@
 ----------------------------- MODULE MC_Imports -----------------------------
 (* Case sources for Imports.tla:                                            *)
 (*   * enumeration of every import graph over a small universe of files     *)
-(*     (VT_UNIV names the universe, VT_NAMES the overlapping rule names);   *)
-(*   * skeletons (paths, imports, rules) read from a JSON file (VT_CASES),  *)
-(*     completed with references by the same Build operator.                *)
+(*     (VT_UNIV names the universe, VT_NAMES the profile of rule names and  *)
+(*     bodies);                                                             *)
+(*   * skeletons (paths, imports, rule definitions) read from a JSON file   *)
+(*     (VT_CASES), completed with references by the same Build operator.    *)
 (* Each case is loaded by Imports!Next; the final step prints the case and  *)
 (* the outcome an observer of the meta-model must see.                      *)
 EXTENDS Imports, IOUtils, Json
@@ -18,13 +19,31 @@ Universe ==
     [] IOEnv.VT_UNIV = "mfgh"   -> << <<"m">>, <<"f">>, <<"d", "g">>, <<"d", "h">> >>
     [] IOEnv.VT_UNIV = "mfeg"   -> << <<"m">>, <<"f">>, <<"e">>, <<"d", "g">> >>
     [] IOEnv.VT_UNIV = "mfgk"   -> << <<"m">>, <<"f">>, <<"d", "g">>, <<"d", "e", "k">> >>
+    \* a grammar two directories down with an import of its own, and a file of the same name one level up
+    [] IOEnv.VT_UNIV = "mkhh"   -> << <<"m">>, <<"d", "e", "k">>, <<"d", "e", "h">>, <<"d", "h">> >>
+    [] IOEnv.VT_UNIV = "mkhg"   -> << <<"m">>, <<"d", "e", "k">>, <<"d", "e", "h">>, <<"d", "g">> >>
+    \* main grammars whose file name ends in the letters of the extension
+    [] IOEnv.VT_UNIV = "first"  -> << <<"first">>, <<"f">> >>
+    [] IOEnv.VT_UNIV = "syntax" -> << <<"syntax">>, <<"text">>, <<"d", "next">> >>
     [] OTHER                    -> << <<"m">> >>
 U == Universe
 NU == Len(U)
-Names == IF IOEnv.VT_NAMES = "AB" THEN {"A", "B"}
-         ELSE IF IOEnv.VT_NAMES = "A" THEN {"A"} ELSE {"A", "B", "C"}
-NameSeq == IF IOEnv.VT_NAMES = "AB" THEN <<"A", "B">>
-           ELSE IF IOEnv.VT_NAMES = "A" THEN <<"A">> ELSE <<"A", "B", "C">>
+Builtins == {"ID"}
+
+\* ---- profiles of rule definitions: a definition is <<name, body, alias target>>
+Def(n, b, t) == <<n, b, t>>
+Opt(n) == {<<>>, <<Def(n, "common", "")>>}
+Slots ==
+  CASE IOEnv.VT_NAMES = "A"   -> <<Opt("A")>>
+    [] IOEnv.VT_NAMES = "AB"  -> <<Opt("A"), Opt("B")>>
+    \* kinds: A may be `A: B;`, B may be a match rule
+    [] IOEnv.VT_NAMES = "K"   -> << Opt("A") \cup {<<Def("A", "alias", "B")>>}, Opt("B") \cup {<<Def("B", "match", "")>>} >>
+    \* a grammar's own ID rule, referenced directly and through `A: ID;`
+    [] IOEnv.VT_NAMES = "I"   -> << Opt("A") \cup {<<Def("A", "alias", "ID")>>}, {<<>>, <<Def("ID", "match", "")>>} >>
+    [] OTHER                  -> <<Opt("A"), Opt("B"), Opt("C")>>
+NameSeq == CASE IOEnv.VT_NAMES = "A" -> <<"A">> [] IOEnv.VT_NAMES = "AB" -> <<"A", "B">>
+             [] IOEnv.VT_NAMES = "K" -> <<"A", "B">> [] IOEnv.VT_NAMES = "I" -> <<"A", "ID">>
+             [] OTHER -> <<"A", "B", "C">>
 MaxImp == IF IOEnv.VT_MAXIMP = "3" THEN 3 ELSE 2
 DevSet == IF IOEnv.VT_DEV = "" THEN {} ELSE {IOEnv.VT_DEV}
 Emit == IOEnv.VT_EMIT = "1"
@@ -40,35 +59,55 @@ Inj(T, l) == IF l = 0 THEN {<<>>}
                   IN P \cup {Append(s, x) : s \in {s \in P : Len(s) = l - 1}, x \in T}
 NoRep(s) == \A a, b \in 1..Len(s) : s[a] = s[b] => a = b
 ImpChoices == [i \in 1..NU |-> {s \in Inj({Rel(i, j) : j \in {j \in 1..NU : Importable(i, j)}}, MaxImp) : NoRep(s)}]
-RuleChoices == [i \in 1..NU |-> SUBSET Names]
 
 RECURSIVE Prod(_, _)
 Prod(C, k) == IF k = 0 THEN {<<>>} ELSE {Append(s, x) : s \in Prod(C, k - 1), x \in C[k]}
-
-SeqOfSet(S) == SelectSeq(NameSeq, LAMBDA n : n \in S)
+DefChoices == {Flat(s) : s \in Prod(Slots, Len(Slots))}          \* the rule definitions a file may have
+RuleChoices == [i \in 1..NU |-> DefChoices]
 
 \* ---- completion of a skeleton with references (the same for both sources)
 PName(i) == "P" \o ToString(i)
-Skeleton(paths, imps, rls) ==
-  [i \in 1..Len(paths) |-> [path |-> paths[i], imports |-> imps[i], rules |-> <<PName(i)>> \o rls[i]]]
+\* a skeleton file: [path, imports, defs]; defs: Seq of <<name, body, target>>
+Skeleton(paths, imps, dfs) == [i \in 1..Len(paths) |-> [path |-> paths[i], imports |-> imps[i], defs |-> dfs[i]]]
 
-\* F0: files with path, imports, rules (own probe rule first); v: the variant
+Plain(F0) == [i \in 1..Len(F0) |->
+                [path |-> F0[i].path, imports |-> F0[i].imports,
+                 rules |-> <<PName(i)>> \o [k \in 1..Len(F0[i].defs) |-> F0[i].defs[k][1]],
+                 body |-> <<"probe">> \o [k \in 1..Len(F0[i].defs) |-> F0[i].defs[k][2]],
+                 alias |-> LET as == SelectSeq(F0[i].defs, LAMBDA d : d[2] = "alias")
+                           IN [k \in 1..Len(as) |-> [name |-> as[k][1], target |-> as[k][3]]],
+                 refs |-> <<>>, qrefs |-> <<>>, probe |-> <<>>, parent |-> 0]]
+
+\* the fragment: the body of an alias rule names a rule that its file defines or imports (a built-in
+\* name only if the file defines it itself), and that rule is not an alias rule
+AliasOK(F1) ==
+  \A i \in 1..Len(F1) : \A a \in Range(F1[i].alias) :
+     LET j == Resolve(F1, i, a.target) IN
+     /\ j # 0 /\ BodyOf(F1, j, a.target) # "alias"
+     /\ (a.target \in Builtins => j = i)
+\* a skeleton outside the fragment is brought into it: the alias rule becomes a common rule
+Sanitised(F0) ==
+  IF AliasOK(Plain(F0)) THEN F0
+  ELSE [i \in 1..Len(F0) |-> [F0[i] EXCEPT !.defs = [k \in 1..Len(F0[i].defs) |->
+          IF F0[i].defs[k][2] = "alias" THEN Def(F0[i].defs[k][1], "common", "") ELSE F0[i].defs[k]]]]
+
+\* F0: skeleton; nms: names to probe; v: the variant
 Build(F0, nms, v) ==
-  LET F1 == [i \in 1..Len(F0) |-> [path |-> F0[i].path, imports |-> F0[i].imports, rules |-> F0[i].rules,
-                                   refs |-> <<>>, qrefs |-> <<>>, probe |-> <<>>, parent |-> 0]]
+  LET F1 == Plain(F0)
       d  == Dfs(F1)
-      L  == Range(d.order)
       kids(i) == SelectSeq(d.order, LAMBDA j : d.parent[j] = i)
       \* the carrier: the probe rule of a file references the probe rules of the files it entered
       carrier(i) == [k \in 1..Len(kids(i)) |-> PName(kids(i)[k])]
-      seen(i) == SelectSeq(nms, LAMBDA n : Resolve(F1, i, n) # 0)
+      \* unqualified references: every name with a documented target (a built-in name only where the
+      \* file defines its own rule of that name)
+      seen(i) == SelectSeq(nms, LAMBDA n : Resolve(F1, i, n) # 0 /\ (n \in Builtins => n \in Rules(F1)[i]))
       root(i) == Len(F1[i].path) = 1
       \* qualified references `[ns.Name]`: in files of the main directory, naming the file
-      \* itself or a file it imports, of the main directory
+      \* itself or a file it imports
       qs(i) == IF ~root(i) \/ v.kind = "noq" THEN <<>>
                ELSE Flat([k \in 1..Len(d.order) |->
                       LET j == d.order[k] IN
-                      IF ~root(j) \/ ~(j = i \/ j \in Range(ImpT(F1, i))) THEN <<>>
+                      IF ~(j = i \/ j \in Range(ImpT(F1, i))) THEN <<>>
                       ELSE LET ns == SelectSeq(nms, LAMBDA n : n \in Rules(F1)[j])
                            IN [q \in 1..Len(ns) |-> [ns |-> F1[j].path, name |-> ns[q], form |-> "obj"]]])
       extra(i) == IF v.kind = "neg" /\ v.file = i THEN <<v.name>> ELSE <<>>
@@ -77,34 +116,32 @@ Build(F0, nms, v) ==
   IN [i \in 1..Len(F1) |->
         [F1[i] EXCEPT !.refs = carrier(i) \o seen(i) \o extra(i),
                       !.qrefs = qs(i) \o qextra(i),
-                      !.probe = IF i = 1 THEN nms ELSE <<>>,
+                      !.probe = IF i = 1 THEN SelectSeq(nms, LAMBDA n : n \notin Builtins \/ n \in Rules(F1)[1]) ELSE <<>>,
                       !.parent = d.parent[i]]]
 
 NoVariant == [kind |-> "base", file |-> 0, name |-> "-", form |-> "-", target |-> 0]
 \* one extra reference that must not resolve: a name defined in some loaded file
 \* that is neither the file itself nor one of its imports
 NegVariants(F0, nms) ==
-  LET F1 == Build(F0, nms, NoVariant) IN
-  {v \in [kind : {"neg"}, file : 1..Len(F0), name : Range(nms), form : {"-"}, target : {0}] :
+  LET F1 == Plain(F0) IN
+  {v \in [kind : {"neg"}, file : 1..Len(F0), name : Range(nms) \ Builtins, form : {"-"}, target : {0}] :
       /\ v.file \in Reach(F1)
       /\ Resolve(F1, v.file, v.name) = 0
       /\ \E j \in Reach(F1) : v.name \in Rules(F1)[j]}
-\* one extra qualified reference in the main grammar, in a form the documentation
-\* shows (`x=ns.Name`) or implies (`[ns.Name]` with a directory); acyclic graphs only
+\* one extra qualified rule reference `x=ns.Name` in the main grammar (the form the documentation
+\* shows); acyclic graphs only
 QVariants(F0, nms) ==
-  LET F1 == Build(F0, nms, NoVariant) IN
+  LET F1 == Plain(F0) IN
   IF Cyclic(F1) THEN {}
-  ELSE {v \in [kind : {"q"}, file : {1}, name : Range(nms), form : {"rule", "obj"}, target : Reach(F1)] :
+  ELSE {v \in [kind : {"q"}, file : {1}, name : Range(nms), form : {"rule"}, target : Reach(F1)] :
           /\ v.target \in Range(ImpT(F1, 1))
           \* one name per imported file: the first of nms the file defines
           /\ \E q \in 1..Len(nms) : /\ nms[q] = v.name /\ v.name \in Rules(F1)[v.target]
-                                     /\ \A q2 \in 1..(q - 1) : nms[q2] \notin Rules(F1)[v.target]
-          /\ (v.form = "obj" => Len(F1[v.target].path) > 1)}
-
+                                     /\ \A q2 \in 1..(q - 1) : nms[q2] \notin Rules(F1)[v.target]}
 \* on cyclic graphs also the case without any qualified reference (so that a load which only
 \* differs in unqualified links is seen as such)
 NoQVariants(F0, nms) ==
-  IF Cyclic(Build(F0, nms, NoVariant)) THEN {[kind |-> "noq", file |-> 0, name |-> "-", form |-> "-", target |-> 0]} ELSE {}
+  IF Cyclic(Plain(F0)) THEN {[kind |-> "noq", file |-> 0, name |-> "-", form |-> "-", target |-> 0]} ELSE {}
 
 Variants(F0, nms) ==
   {NoVariant} \cup (IF IOEnv.VT_VARIANTS = "1"
@@ -127,26 +164,32 @@ InShard(a, b) == \E k \in 1..Len(MainChoices) : MainChoices[k] = <<a, b>> /\ ToS
 
 GenInit ==
   \E im \in Prod(ImpChoices, NU) :
-    /\ AllReachable(Skeleton(U, im, [i \in 1..NU |-> <<>>]))
+    /\ AllReachable(Plain(Skeleton(U, im, [i \in 1..NU |-> <<>>])))
     /\ \E rl \in Prod(RuleChoices, NU) :
          /\ InShard(im[1], rl[1])
-         /\ LET sk == Skeleton(U, im, [i \in 1..NU |-> SeqOfSet(rl[i])]) IN
-            \E v \in Variants(sk, NameSeq) :
-               /\ InitFor(Build(sk, NameSeq, v)) /\ cid = "-" /\ var = v
+         /\ LET sk == Skeleton(U, im, rl) IN
+            /\ AliasOK(Plain(sk))
+            /\ \E v \in Variants(sk, NameSeq) :
+                 /\ InitFor(Build(sk, NameSeq, v)) /\ cid = "-" /\ var = v
 
 FileInit ==
   \E c \in 1..Len(FileCases) :
-    LET sk == [i \in 1..Len(FileCases[c].files) |->
+    LET sk == Sanitised([i \in 1..Len(FileCases[c].files) |->
                  [path |-> FileCases[c].files[i].path, imports |-> FileCases[c].files[i].imports,
-                  rules |-> <<PName(i)>> \o FileCases[c].files[i].rules]]
+                  defs |-> FileCases[c].files[i].defs]])
         nms == FileCases[c].names
     IN \E v \in (IF FileCases[c].variant.kind = "any" THEN Variants(sk, nms) ELSE {FileCases[c].variant}) :
          /\ InitFor(Build(sk, nms, v)) /\ cid = FileCases[c].id /\ var = v
 
+DefsOf(i) == [k \in 2..Len(fs[i].rules) |->
+                LET n == fs[i].rules[k] IN
+                <<n, fs[i].body[k], IF fs[i].body[k] = "alias" THEN fs[i].alias[AliasIdx(fs, i, n)].target ELSE "">>]
 CaseJson == [id |-> cid, variant |-> var, names |-> fs[1].probe,
              files |-> [i \in 1..Len(fs) |-> [ns |-> Ns(fs, i), path |-> fs[i].path,
                                               imports |-> [k \in 1..Len(fs[i].imports) |-> Dotted(fs[i].imports[k])],
-                                              rules |-> fs[i].rules, refs |-> fs[i].refs,
+                                              rules |-> fs[i].rules,
+                                              defs |-> [k \in 1..(Len(fs[i].rules) - 1) |-> DefsOf(i)[k + 1]],
+                                              refs |-> fs[i].refs,
                                               qrefs |-> [k \in 1..Len(fs[i].qrefs) |->
                                                            <<Dotted(fs[i].qrefs[k].ns), fs[i].qrefs[k].name, fs[i].qrefs[k].form>>],
                                               parent |-> fs[i].parent]]]
